@@ -340,8 +340,11 @@ class Keyer:
     self.lookups = self.lookup_missing = self.localised = 0
 
   def sitefree(self, d, site, direction, depth=0):
-    if direction == "missed" and site == "assign" and d["vdesc"] == "None":
+    if direction == "missed" and site == "assign" and d["vdesc"] == "None" and depth == 0:
       return "any|None"
+    # the None-initial-value rule of the assignment site only concerns the whole
+    # value; for a part the assignment site checks like the return site
+    psite = "return" if site == "assign" else site
     if depth < 4:
       for c, vd in d.get("parts") or []:
         self.lookups += 1
@@ -349,10 +352,10 @@ class Keyer:
         if sub is None:
           self.lookup_missing += 1
           continue
-        if verdict(sub, site) == direction and "own" in sub:
+        if verdict(sub, psite) == direction and "own" in sub:
           if depth == 0:
             self.localised += 1
-          return self.sitefree(sub, site, direction, depth + 1)
+          return self.sitefree(sub, psite, direction, depth + 1)
     return d["own"]
 
 
@@ -373,10 +376,11 @@ def run(tier, seed):
   pairs = [(a, v) for a in anns for v in values]
   rng = random.Random(f"{PID}-{seed}-order")
   rng.shuffle(pairs)            # which cases share a module depends on the seed; verdicts must not
-  per = 2 * MODULE_PAIRS if tier == "quick" else 5 * MODULE_PAIRS
+  nchild = 32 if tier == "quick" else 128     # whole rounds of the 16-worker pool
+  per = (len(pairs) + nchild - 1) // nchild
   tasks = []
   for b, k in enumerate(range(0, len(pairs), per)):
-    tasks.append({"fn": "vf.checks.c02:child", "id": f"b{b}", "timeout": 2400,
+    tasks.append({"fn": "vf.checks.c02:child", "id": f"b{b}", "timeout": 7200,
                   "arg": {"pairs": pairs[k:k + per], "module_pairs": MODULE_PAIRS}})
   recs = []
   for res in pool.run_tasks(tasks):
@@ -384,6 +388,10 @@ def run(tier, seed):
       ck.child_failed(res, f"batch {res.get('task')}")
       continue
     recs.extend(res["result"]["pairs"])
+  import os, json
+  if os.environ.get("C02_DUMP"):
+    with open(os.environ["C02_DUMP"], "w") as f:
+      json.dump(recs, f)
   evaluate(ck, recs)
   ck.count("pairs_generated", len(pairs))
   ck.extra["grid"] = {"annotations": len(anns), "values": len(values), "sites": 3}
